@@ -211,6 +211,12 @@ def instance_state(model, res, c, R='R2'):
                     pre = cc.name + '.'
                     if s.startswith(pre) and ev.attr is None:
                         mutated.setdefault((cc.name, s[len(pre):]), ev)
+    own_names = set(cc.name for m_, cls_ in pcs for mm_, cc in model.mro(m_, cls_))
+
+    def foreign_states(v):
+        """States of an ownership value other than attributes of the object itself (self.a = self.b.field aliases nothing shared:
+        whether self.b is per instance is decided where self.b is born)."""
+        return [s_ for s_ in (v.states() if v is not None else []) if s_ != 'self' and not any(s_.startswith(n_ + '.') for n_ in own_names)]
     for (cname, attr), ev in sorted(mutated.items()):
         born = [e for (cn, a), evs in stores.items() if a == attr for e in evs]
         site = '%s.%s' % (cname, attr)
@@ -223,7 +229,7 @@ def instance_state(model, res, c, R='R2'):
             continue
         for b in born:
             v = b.value
-            ok = v is not None and not v.has('state')
+            ok = v is not None and not foreign_states(v)
             res.ob(R, site, 'born in %s as %s' % (fmt(b.key), b.detail), ok, repr(v))
             if not ok:
                 res.violation(R, '%s:attr-aliases-shared-object' % site, b.where(),
@@ -237,7 +243,7 @@ def instance_state(model, res, c, R='R2'):
             if (cname, attr) in mutated:
                 continue
             v = b.value
-            bad = v is not None and v.has('state') and not all(s.startswith('hotxlfp.formulas.error.') for s in v.states())
+            bad = v is not None and bool(foreign_states(v)) and not all(s.startswith('hotxlfp.formulas.error.') for s in foreign_states(v))
             # class-level immutable constants re-exposed on the instance are fine; mutable shared containers are not
             res.ob(R, '%s.%s' % (cname, attr), 'initialised in %s' % fmt(b.key), not bad, repr(v))
             if bad:
